@@ -23,7 +23,7 @@ ASSUMPTIONS = [
     "lists are used with the condition/action family of their own type; a regex list has one member (other uses are outside the domain)",
     "reference readers of the three vendors' policy / list syntaxes are in this module (namespaces per list kind)",
 ]
-FLOORS = {"quick": {"generator_runs": 2000, "policy_runs": 500, "refs_checked": 1000, "constructs_rejected": 100, "actions_segmented": 1000, "combined_operation_actions": 100, "wildcard_only_as_path_filter_refs": 50, "shared_policy_inputs_checked": 800, "reused_generator_objects": 1500, "reused_generator_objects_after_a_refused_run": 100, "annotated_runs": 1500, "cases_with_included_route_maps": 800, "prefix_matches_with_a_zero_bound": 150, "route_maps_applied_three_times": 2000},
+FLOORS = {"quick": {"generator_runs": 2000, "policy_runs": 500, "refs_checked": 1000, "constructs_rejected": 100, "actions_segmented": 1000, "combined_operation_actions": 100, "wildcard_only_as_path_filter_refs": 50, "shared_policy_inputs_checked": 800, "reused_generator_objects": 1500, "reused_generator_objects_after_a_refused_run": 100, "annotated_runs": 1500, "cases_with_included_route_maps": 800, "prefix_matches_with_a_zero_bound": 150, "route_maps_applied_three_times": 2000, "programs_with_punctuated_policy_names": 500},
           "thorough": {"generator_runs": 100000, "policy_runs": 25000, "refs_checked": 50000, "constructs_rejected": 5000, "actions_segmented": 50000, "combined_operation_actions": 5000, "wildcard_only_as_path_filter_refs": 2500, "shared_policy_inputs_checked": 40000}}
 VENDORS = ["huawei", "arista", "cumulus"]
 MODELS = {"huawei": ("Huawei CE6870-48S6CQ-EI", "VRP V200R001C00SPC700"), "arista": ("Arista DCS-7368", "EOS 4.29.9.1M"),
@@ -558,6 +558,17 @@ def check_case(seed, acc):
                     c[3] = zrng.choice([(0, 24), (0, 32), (0, None)]) if c[1] == "v4" else zrng.choice([(0, 64), (0, None)])
                     acc.count("prefix_matches_with_a_zero_bound")
     model, soft = MODELS[vendor]
+    mrng = random.Random(seed ^ 0x30DE)
+    if vendor == "huawei":
+        # the Huawei back-end serves every hardware family of the vendor
+        model = mrng.choice([model, model, "Huawei NE40E-X8", "Huawei Quidway S5352C-EI", "Huawei S6720-30C-EI-24S-AC", "Huawei CE12804"])
+    acc.distinct("hardware_models", model)
+    if mrng.random() < 0.3:
+        # policy names as operators write them: with dashes, dots and colons (the route map's name is a free text)
+        ren = {pol["name"]: pol["name"] + mrng.choice(["-V4", ".in", "-IMPORT-1", ":x"]) for pol in program}
+        for pol in program:
+            pol["name"] = ren[pol["name"]]
+        acc.count("programs_with_punctuated_policy_names")
     dev = H.FakeDevice(HardwareView(model, soft), pc=(vendor == "cumulus"))
     w = {"seed": seed, "vendor": vendor, "program": program, "entities": ents}
     nested = seed % 3 == 1
